@@ -6,7 +6,7 @@ from ..refs import vtimezone as R5
 
 ID = "C12"
 RULE = ("(1) VTIMEZONE definitions (G7): 1-4 observances, whole-minute offsets -12h..+14h, kinds {yearly nth-weekday rule pair, rule+UNTIL (UTC), rule+COUNT (both also with RDATE onsets next to the RRULE), RDATE "
-        "lists, single onsets - also onsets hours apart whose local DTSTART order differs from their order in time, and onsets that keep the offset and change only TZNAME or STANDARD/DAYLIGHT}, with/without TZNAME (also the same TZNAME on observances with different offsets), observance order shuffled; built with "
+        "lists, two open-ended rules of the same kind, single onsets - also onsets hours apart whose local DTSTART order differs from their order in time, and onsets that keep the offset and change only TZNAME or STANDARD/DAYLIGHT}, with/without TZNAME (also the same TZNAME on observances with different offsets), observance order shuffled; built with "
         "Timezone.from_ical(text).to_tz(tzp, lookup_tzid=False) under both providers; instants: every onset -1 s / 0 / +1 s / +20 d (a sample of onsets per "
         "definition in quick) and two instants in 2037; p.astimezone(tz) must give R5's TZOFFSETTO, TZNAME when given, dst()==0 under STANDARD, and the two "
         "providers must agree. (2) histories of 1-5 parsed calendars in one process (zone cache cleared at the start of each history): each calendar "
@@ -28,7 +28,7 @@ def clamp(off):
 
 
 def gen_definition(rng):
-    kind = rng.choice(("rule-pair", "rule-pair", "rule-until", "rule-count", "rdates", "singles", "single", "independent", "close"))
+    kind = rng.choice(("rule-pair", "rule-pair", "rule-until", "rule-count", "rdates", "singles", "single", "independent", "close", "double-rule"))
     std = rng.choice(range(-12 * 60, 14 * 60 + 1, 15)) * 60
     delta = rng.choice((1800, 3600, 3600, 7200))
     dst = clamp(std + delta)
@@ -99,6 +99,21 @@ def gen_definition(rng):
             to = clamp(frm + rng.choice((-3600, 1800, 3600, 7200)))
             k = rng.choice(("STANDARD", "DAYLIGHT"))
             obs.append((k, (y, rng.randrange(1, 13), rng.randrange(1, 29), rng.randrange(0, 24), 0, 0), frm, to, (names[1] if k == "DAYLIGHT" else names[0]), (), None))
+    elif kind == "double-rule":
+        # two observances of the same kind with open-ended rules (double summer time from a later year on, in another month):
+        # the younger one does not end the older one - each rule keeps producing its onsets
+        y0 = rng.randrange(1970, 2000)
+        y1 = y0 + rng.randrange(3, 20)
+        hour = rng.choice((1, 2, 3))
+        dst2 = clamp(dst + 3600)
+        if dst2 == dst:
+            dst2 = dst - 1800
+        specs = (("DAYLIGHT", y0, 3, std, dst, "VDT"), ("STANDARD", y0, 10, dst, std, "VST"), ("DAYLIGHT", y1, 6, dst, dst2, "VDDT"), ("STANDARD", y1, 8, dst2, dst, "VMT"))
+        for k, y, month, frm, to, nm in specs[: rng.choice((3, 4))]:
+            n = rng.choice((1, 2, -1))
+            wd = rng.randrange(7)
+            day = R5.nth_weekday(y, month, n, wd)
+            obs.append((k, (y, month, day, hour, 0, 0), frm, to, None if name_mode == "none" else nm, (), (month, n, wd, None, None)))
     elif kind == "close":
         # single onsets a few hours apart (as instants): their order as *local* DTSTART values can differ from their order in time,
         # because each DTSTART is local to its own TZOFFSETFROM
